@@ -180,7 +180,11 @@ Proof.
   - rewrite E2. intros X. split; [intros j l0 q a _; rewrite E3; apply (c_st s C X)|]. intros l0 q a ->. discriminate.
   - rewrite E1, E2. intros X Sf. destruct (c_first s C X Sf) as (t & pt & Ht & Spt). right. exists t, pt.
     repeat split; auto. intros ->. unfold T in *. congruence.
-  - intros X Q. rewrite E1 in X. rewrite E5, hk, X, (c_wk0 s C X). cbn [length]. rewrite Nat.add_0_r.
+  - destruct (throws k) eqn:TK.
+    { apply (wake_keep s s' i p old (c_wake s C) H Et A E1).
+      - rewrite E6, hq, Bool.orb_true_r. reflexivity.
+      - rewrite E5, hk, Bool.orb_true_r. lia. }
+    intros X Q. rewrite E1 in X. rewrite E5, hk, X, (c_wk0 s C X). cbn [length orb]. rewrite Nat.add_0_r.
     destruct (Nat.ltb_spec (tokens s) (sleepers s)) as [L|L]; [left; lia|].
     destruct (Nat.eq_dec (tokens s) 0) as [Z|Z]; [|left; lia].
     right. destruct (some_worker_awake s C X) as (w & pw & Hw & Lw & Aw); [lia|].
@@ -191,9 +195,9 @@ Proof.
   - rewrite E1. auto.
   - intros l0 q f a w E. subst p. discriminate.
   - rewrite E1, E4. apply (c_wk0 s C).
-  - rewrite E1, E5, E6, hq, hk. intros X. rewrite X, (c_wk0 s C X). cbn [length]. rewrite Nat.add_0_r.
+  - rewrite E1, E5, E6, hq, hk. intros X. rewrite X, (c_wk0 s C X). cbn [length orb]. rewrite Nat.add_0_r.
     pose proof (sleepers_set s s' i p old H Et) as SL. rewrite So, Sp in SL. cbn [b2n] in SL.
-    pose proof (c_tokq s C X) as TQ. rewrite app_length. cbn [length].
+    pose proof (c_tokq s C X) as TQ. destruct (throws k); [lia|]. rewrite app_length. cbn [length].
     destruct (Nat.ltb_spec (tokens s) (sleepers s)); lia.
 Qed.
 
